@@ -597,6 +597,10 @@ class AsyncServer:
                     # timed out; pass it on, or another waiter could miss the free slot.
                     self._pipeline_notfull.notify()
                     raise ServerBacklogFull(len(pipeline), perf_counter() - t0)
+                except asyncio.CancelledError:
+                    # Likewise if the caller's task is cancelled while it waits.
+                    self._pipeline_notfull.notify()
+                    raise
 
             # We can't accept situation that an entry is placed in `pipeline`
             # but not in `_input_buffer`, for that entry would be stuck in `pipeline`
